@@ -11,23 +11,6 @@ sys.path.insert(0, str(VERIF))
 
 PY = "/venv/bin/python"
 
-# property -> (clause decided, left open / trusted)
-CLAIMS = {
-    "C05": (
-        "Decides, for every CFG path, the control-shape clause of the property: run() steps only after a fresh GSC=false and exits only on GSC=true; exactly one `+= 1` of the metaepoch counter per step and no other writer; sprouting only under GSC=false after the metaepoch; in every engine no two evaluation sites without a GSC consult between them, no evaluation after GSC=true, GSC=true implies deactivate-and-return; only init_from_config (from DemeTree.__init__/_do_sprout) creates demes. The clause does not depend on seeds or values, so the path enumeration is the whole quantifier.",
-        "User-supplied stop conditions/sprout mechanisms are outside pyhms. 'One engine iteration' = one statement-level evaluation site. Resolver and effect summaries (DESIGN.md §3, §9) are trusted.",
-    ),
-    "C06": (
-        "Decides the lifecycle clause path-sensitively: `_active` True only at construction and False only by the deme itself; only active demes are stepped, once per iteration (hibernation skip excepted); exactly one history append per run_metaepoch path; each deactivation justified by a true GSC verdict / true LSC verdict after the append / true engine-stop predicate / one-shot engine, and such verdicts always deactivate; evaluations in deme classes reachable only from __init__/run_metaepoch; metaepoch counter = len(history) - 1.",
-        "Behaviour of user-defined LSCs is not analysed; cma's stop() is treated as the engine self-stop predicate.",
-    ),
-}
-
-TECHNIQUE = {
-    "C05": "custom ast/CFG typestate analysis + who-may-call over a resolved call graph with effect summaries",
-    "C06": "custom ast/CFG path-sensitive typestate + who-may-write / who-may-call checks",
-}
-
 NOT_APPLICABLE = {
     "C17": "clip/reflect/toroidal are pure floating-point arithmetic quantified over all reals, decimal bounds and ulps; no dataflow/typestate/shape argument bounds rounding error (needs interval/solver reasoning or execution, which are other technique families). The nearby structural fact (call sites pass a handled method literal and the problem's own bounds) is claimed under C01.",
 }
@@ -41,8 +24,9 @@ def main():
     na = []
     for p in props:
         pid = p["id"]
-        if pid in CLAIMS and (VERIF / "hmslint" / "rules" / f"{pid.lower()}.py").exists():
-            text, note = CLAIMS[pid]
+        if pid not in NOT_APPLICABLE and (VERIF / "hmslint" / "rules" / f"{pid.lower()}.py").exists():
+            mod = importlib.import_module(f"hmslint.rules.{pid.lower()}")
+            text, note = " ".join(mod.CLAIM.split()), " ".join(mod.NOTE.split())
             checks.append(
                 {
                     "property_id": pid,
@@ -53,7 +37,7 @@ def main():
                     "engine": "hmslint",
                     "level_claimed": {"category": "other", "text": "Static analysis of the current source (no execution). " + text, "design_ref": f"DESIGN.md §5 {pid}"},
                     "level_note": note,
-                    "technique": TECHNIQUE.get(pid, "custom ast/CFG/dataflow static analysis"),
+                    "technique": getattr(mod, "TECHNIQUE", "custom ast/CFG/dataflow static analysis"),
                 }
             )
         elif pid in NOT_APPLICABLE:
